@@ -38,6 +38,26 @@ __CPROVER_ensures(RV == chunk_of_ordinal_dealloc(getOrdinal(N)) && RV == chunk_o
 __CPROVER_assigns()
 { return chunk_of_ordinal_alloc(getOrdinal(N)); }
 
+/* ---------------- requests larger than kMaxSmallBufferSize: straight to alignedMalloc ---------------- */
+size_t KBLOCK_SYM;                                   /* symbolic template argument kBlockSize */
+#define kBlockSize KBLOCK_SYM
+/* alignedMalloc contracts (two-argument form proved under C44; the one-argument form aligns to the cache line) */
+size_t G_alignedMalloc2(size_t bytes, size_t alignment)
+__CPROVER_requires(alignment != 0 && (alignment & (alignment - 1)) == 0)
+__CPROVER_ensures(RV != 0 && RV % alignment == 0)
+__CPROVER_assigns()
+;
+size_t G_alignedMalloc1(size_t bytes)
+__CPROVER_ensures(RV != 0 && RV % KCACHELINE == 0)
+__CPROVER_assigns()
+;
+size_t allocSmallOrLarge_large(void)
+__CPROVER_requires(KBLOCK_SYM > 256 && KBLOCK_SYM <= ((size_t)1 << 40) && (KBLOCK_SYM & (KBLOCK_SYM - 1)) == 0)
+/* allocSmallBuffer<N>() returns a block aligned to N also beyond the pooled sizes */
+__CPROVER_ensures(RV != 0 && RV % KBLOCK_SYM == 0)
+__CPROVER_assigns()
+#include "allocSmallOrLarge_large.body.inc"
+
 /* ---------------- (b) thread-local stack ---------------- */
 #define NBLK 64                       /* ghost universe of block ids */
 enum { ST_CENTRAL = 0, ST_TL = 1, ST_ALLOCATED = 2 };
@@ -173,6 +193,7 @@ static void mk_stack(void) {
   tlCount = nondet_size_t(); __CPROVER_assume(tlCount < kMaxNumTLBuffers);
   g_k = nondet_size_t(); g_double_handout = 0; g_bad_free = 0;
 }
+void h_allocSmallOrLarge_large(void) { KBLOCK_SYM = nondet_size_t(); allocSmallOrLarge_large(); }
 void h_getOrdinal(void) { size_t b; getOrdinal(b); }
 void h_c41_size_class(void) { size_t n; c41_size_class(n); }
 void h_SBA_alloc(void) { mk_stack(); SBA_alloc(); }
